@@ -228,8 +228,9 @@ const NAP_BASE: usize = 5000;
 
 /// An identifier that differs from `p` in exactly one of creation, serial, node name.
 fn stale_variant(p: &ExternalPid, how: u32) -> ExternalPid {
-    match how % 4 {
-        0 => ExternalPid::new(p.node.clone(), p.id, p.serial, p.creation.wrapping_add(1)),
+    match how % 5 {
+        4 if p.creation != 0 => ExternalPid::new(p.node.clone(), p.id, p.serial, 0),
+        0 | 4 => ExternalPid::new(p.node.clone(), p.id, p.serial, p.creation.wrapping_add(1)),
         1 => ExternalPid::new(p.node.clone(), p.id, p.serial, p.creation ^ 0x8000_0000),
         2 => ExternalPid::new(p.node.clone(), p.id, p.serial.wrapping_add(1), p.creation),
         _ => ExternalPid::new(Atom::new("ghost@sim"), p.id, p.serial, p.creation),
@@ -419,7 +420,7 @@ async fn procs(w: &Arc<World>, p: &Plan) {
                         w.stat("probe.c18.stale_identifier_used");
                     }
                     "link_stale" => {
-                        let (x, y) = if op.b & 4 == 0 { (stale_variant(&pids[a], op.b), pids[b].clone()) } else { (pids[a].clone(), stale_variant(&pids[b], op.b & 1)) };
+                        let (x, y) = if op.b & 4 == 0 { (stale_variant(&pids[a], op.b), pids[b].clone()) } else { (pids[a].clone(), stale_variant(&pids[b], if op.b & 1 == 0 { 4 } else { 1 })) };
                         rec.inv = next_seq(&hist);
                         let r = node.link(&x, &y).await;
                         rec.ret = next_seq(&hist);
